@@ -66,7 +66,7 @@ Proof.
   destruct (target_of it) as [name|]; [|apply IH].
   destruct (negb (has_record m name 1) || negb (has_record m name 28)); [|apply IH].
   unfold rd at 1, rd' at 1, reader_v1 at 1 2. cbn [rd_rr]. rewrite for_each_rr_v1_ext.
-  destruct (for_each_rr_v1 b st' name L _ wrs_empty) as [w e]. cbn [bind]. apply IH.
+  destruct (for_each_rr_v1 b st' (lower_bytes name) L _ wrs_empty) as [w e]. cbn [bind]. apply IH.
 Qed.
 
 Lemma serve_sections_ext : forall q ecs auth zc an rcode c,
